@@ -74,6 +74,16 @@ impl<'a> View<'a> {
         live.or_else(|| self.conns.values().filter(|c| c.addr == addr && c.open_seq <= seq).map(|c| c.conn).max())
     }
 
+    /// The connection known under `addr` that the client holds open at `seq` (none while the
+    /// address is only being dialled, or after the client closed it).
+    pub fn live_conn_of_addr_at(&self, addr: &str, seq: u64) -> Option<ConnId> {
+        self.conns
+            .values()
+            .filter(|c| c.addr == addr && c.open_seq <= seq && c.client_close.map(|(s, _)| s > seq).unwrap_or(true))
+            .map(|c| c.conn)
+            .min()
+    }
+
     /// Virtual time from which the peer behind `conn` has been reading again without
     /// interruption (0 if it never stalled, u64::MAX if it is still stalled at the end).
     pub fn reading_since(&self, conn: ConnId) -> u64 {
